@@ -281,10 +281,11 @@ type recorder struct {
 	r        *Run
 	txByHash map[string]int
 	leafTerm map[string]MVTerm
+	varOf    map[string]int // btc: the variant (serialisation) whose submission created the request (not recoverable from the content)
 }
 
 func newRecorder(r *Run) *recorder {
-	return &recorder{r: r, txByHash: map[string]int{}, leafTerm: map[string]MVTerm{}}
+	return &recorder{r: r, txByHash: map[string]int{}, leafTerm: map[string]MVTerm{}, varOf: map[string]int{}}
 }
 
 var badTerm = MVTerm{Tx: -1, Src: "?", Id: "?", To: "?", Var: -1}
@@ -321,6 +322,14 @@ func (rc *recorder) step(st *Step) *eventJ {
 		if len(kb) != 7+8+32 || t.Tx < 0 || u.chains[t.To] == nil || hex.EncodeToString(kb[7:15]) != hex.EncodeToString(u64le(u.chains[t.To].ID)) ||
 			hex.EncodeToString(kb[15:]) != hex.EncodeToString(u.txHash(uint32(t.Tx))) {
 			t = badTerm
+		}
+		if c := u.chains[t.Src]; c != nil && c.kind == 'c' {
+			if !old[q.Key+"="+q.Val] && st.Act == "import" {
+				rc.varOf[q.Key] = st.V
+			}
+			if v, ok := rc.varOf[q.Key]; ok {
+				t.Var = v
+			}
 		}
 		ev.Req = append(ev.Req, t)
 		if !old[q.Key+"="+q.Val] {
